@@ -200,6 +200,11 @@ pub fn install_panic_hook(quiet: bool) {
     }));
 }
 
+/// The first panic recorded since the last call (from any thread).
+pub fn take_last_panic() -> Option<(String, String)> {
+    LAST_PANIC.lock().take()
+}
+
 /// Normalise a panic message: digits -> '#', trimmed to its first line and 160 chars.
 pub fn norm_msg(m: &str) -> String {
     let first = m.lines().next().unwrap_or("");
